@@ -392,6 +392,52 @@ def split_block(ctx, rng):
         ctx.nontrivial((cls.__name__, np.dtype(T).name, rhs.proto(), str(h), str(mask)))
 
 
+def split_call_sequence_block(ctx, rng):
+    """the splitting integrators through __call__, one object, chained and unrelated starts, the right-hand side changed between two
+    chained calls (other `constants`): every returned increment is the model's composition step for the right-hand side OF THAT CALL"""
+    lines, cases = [], []
+    for cls in [I.SymplecticEulerSolver, I.BABs9o7HSolver, I.ABAs5o6HSolver]:
+        for rep in range(2 if ctx.quick() else 12):
+            n = rng.choice([2, 4])
+            rhs_by_mode = [polyrhs.random_poly(rng, n, max_deg=1), polyrhs.random_poly(rng, n, max_deg=1)]
+            mask = [0] * (n // 2) + [1] * (n // 2) if rng.random() < 0.5 else [rng.randint(0, 1) for _ in range(n)]
+            T = np.float64
+            integ = cls((n,), dtype=T, staggered_mask=np.array(mask, dtype=bool))
+            f = lambda t, y, m=0: rhs_by_mode[int(m)](t, y)
+            mode = 0
+            t_np = T(rng.randint(-8, 8) / 8.0)
+            y_np = np.array([rng.randint(-16, 16) / 16.0 for _ in range(n)], dtype=T)
+            for kind in ["chain", "chain", "chain-new-constants", "chain", "jump", "chain-new-constants", "same-start-other-step", "chain"]:
+                h = Fr(rng.choice([1, 3, 5]), rng.choice([8, 16])) * rng.choice([1, -1])
+                if kind == "jump":
+                    t_np = T(rng.randint(-8, 8) / 8.0)
+                    y_np = np.array([rng.randint(-16, 16) / 16.0 for _ in range(n)], dtype=T)
+                if kind == "chain-new-constants":
+                    mode = 1 - mode
+                rhs = rhs_by_mode[mode]
+                try:
+                    _, (dT, dY) = integ(f, t_np, y_np.copy(), dict(m=mode), T(float(h)))
+                except Exception as e:
+                    ctx.oracle("split-call-runs", False, dict(kind="split-call-sequence", method=cls.__name__, call=kind, error=repr(e)[:200]), what="__call__ raised %r" % (e,))
+                    break
+                lines.append("splitstep %s %d %s %s %s %s %s" % (cls.__name__, n, ",".join(map(str, mask)), rhs.proto(), q(Fr(float(t_np))), qlist(frs(y_np)), q(Fr(float(dT)))))
+                cases.append((cls, kind, rhs, float(t_np), [float(v) for v in y_np], float(dT), np.array(dY), mask))
+                if kind != "same-start-other-step":
+                    t_np = T(t_np + dT)
+                    y_np = y_np + dY
+    outs = ctx.driver(lines)
+    for (cls, kind, rhs, t, y, dT, dY, mask), o in zip(cases, outs):
+        inp = dict(kind="split-call-sequence", method=cls.__name__, call=kind, rhs=rhs.proto(), t=t, y=y, accepted_step=dT, kick_mask=mask)
+        toks = o.split()
+        m_d = [Fr(x) for x in toks[0].split(",")] if len(toks) == 2 else None
+        scale = max([1.0] + [abs(float(v)) for v in (m_d or [])] + [abs(v) for v in y]) * 20
+        ok = m_d is not None and close(dY, m_d, scale, np.float64)
+        ctx.corr("split-call-sequence", ok, dict(inp, impl=[float(v) for v in dY], model=o[:200]))
+        ctx.oracle("increment-is-composition-step-through-call", ok, inp,
+                   what="the increment returned by __call__ (%s call) is not the composition step of the right-hand side it was given" % kind)
+        ctx.count("split-call:" + kind)
+
+
 def run(ctx):
     explicit_block(ctx, ctx.rng)
     call_sequence_block(ctx, ctx.rng)
@@ -399,6 +445,7 @@ def run(ctx):
     shape_block(ctx, ctx.rng)
     acceptance_block(ctx, ctx.rng)
     unsolvable_block(ctx, ctx.rng)
+    split_call_sequence_block(ctx, ctx.rng)
     split_block(ctx, ctx.rng)
 
 
